@@ -117,6 +117,62 @@ def run_shards(func, shards, *, shard_wall=600, total_wall=None, njobs=None):
     return results
 
 
+def fork_each(func, items, *, njobs=None, wall=300):
+    '''Evaluate ``func(item)`` for every item, each in a child forked from
+    THIS process (so every evaluation starts from the state this process is
+    in now, e.g. "modules imported, nothing parsed yet").  Results come back
+    pickled through a scratch directory.  A child that dies or exceeds
+    ``wall`` seconds raises HarnessError.'''
+    import pickle
+    import shutil
+    import signal
+    import tempfile
+    njobs = njobs or jobs()
+    tmp = tempfile.mkdtemp(prefix='vfork-', dir=scratch_root())
+    results = [None] * len(items)
+    pending = list(range(len(items)))
+    running = {}
+    try:
+        while pending or running:
+            while pending and len(running) < njobs:
+                idx = pending.pop(0)
+                sys.stdout.flush()
+                pid = os.fork()
+                if pid == 0:
+                    code = 0
+                    try:
+                        signal.alarm(wall)
+                        _limit_memory()
+                        out = func(items[idx])
+                        with open(os.path.join(tmp, '%d.pkl' % idx),
+                                  'wb') as fil:
+                            pickle.dump(out, fil)
+                    except BaseException:   # noqa
+                        import traceback
+                        traceback.print_exc()
+                        code = 3
+                    finally:
+                        os._exit(code)
+                running[pid] = idx
+            pid, status = os.wait()
+            if pid not in running:
+                continue
+            idx = running.pop(pid)
+            if status != 0:
+                raise HarnessError('forked evaluation %d failed (status %d)'
+                                   % (idx, status))
+            with open(os.path.join(tmp, '%d.pkl' % idx), 'rb') as fil:
+                results[idx] = pickle.load(fil)
+    finally:
+        for pid in running:
+            try:
+                os.kill(pid, 9)
+            except OSError:
+                pass
+        shutil.rmtree(tmp, ignore_errors=True)
+    return results
+
+
 # ---------------------------------------------------------------------------
 # known findings
 
